@@ -38,9 +38,9 @@ MC_THOROUGH = [[("IoRing_med.cfg", 6), ("IoRing_med_out.cfg", 3), ("IoRing_med_s
                 ("IoRing_med_r3.cfg", 1), ("IoRing_small_mono.cfg", 1), ("IoRing_small.cfg", 1)],
                [("IoRing_safe_w2.cfg", 16)], [("IoRing_safe_n4w2.cfg", 16)]]
 # every action of the model must have been taken by at least one configuration (thorough: -coverage 1)
-ACTIONS = ["RTaskBegin", "RTaskEnd", "RExitB", "RTakeB", "RSignal", "RWaitB", "WTaskBegin", "WTaskEnd", "WTakeB",
-           "WSignal", "WExitB", "WWaitB", "ReadNext", "MBroadcastR", "CallerGotB", "CallerWaitReadB",
-           "CallerWriteOkB", "CallerWaitWriteB", "WriteNext", "MBroadcastW", "Stop", "Join", "MonoReadNext",
+ACTIONS = ["RTaskBegin", "RTaskEnd", "RExit", "RTake", "RSignal", "RWait", "WTaskBegin", "WTaskEnd", "WTake",
+           "WSignal", "WExit", "WWait", "ReadNext", "MBroadcastR", "CallerGot", "CallerWaitRead",
+           "CallerWriteOk", "CallerWaitWrite", "WriteNext", "MBroadcastW", "Stop", "Join", "MonoReadNext",
            "MonoRead", "MonoPreset", "MonoWrite", "MonoWriteNext", "MonoStop", "SpuriousWake"]
 
 
